@@ -439,10 +439,12 @@ class Flow:
                     if fld and kfld and fld != kfld:
                         out[k] = v
                     continue
-                if k_alloca != r_alloca:
-                    al = kroot if k_alloca else root
-                    if al[1] not in self._escaped:
-                        out[k] = v
+                if r_alloca and not k_alloca:
+                    out[k] = v      # a store into a local object never changes other memory
+                    continue
+                if k_alloca and not r_alloca:
+                    if kroot[1] not in self._escaped:
+                        out[k] = v  # an unknown pointer can only reach locals whose address escaped
                     continue
                 if fld and kfld and fld != kfld:
                     out[k] = v
@@ -538,6 +540,10 @@ class Flow:
             op = inst.op
             if op == "phi":
                 continue  # assigned on the edge
+            # a re-executed definition (loop iteration) invalidates what was known about the old value
+            r0 = inst.ref
+            if r0 in facts or any(v == r0 for k, v in facts.items() if isinstance(k, tuple) and k[0] == "A"):
+                facts = {k: v for k, v in facts.items() if k != r0 and not (isinstance(k, tuple) and k[0] == "A" and v == r0)}
             E = Eval(self, facts)
             if op == "store":
                 r = hooks.on_inst(inst, prop, E)
@@ -569,14 +575,19 @@ class Flow:
                 if cal and (cal.startswith("llvm.memcpy") or cal.startswith("llvm.memset") or cal.startswith("llvm.memmove") or cal in ("memcpy", "memset", "memmove")):
                     pe = self.expr(inst.args[0])
                     root = vf.root_of(pe)
+                    r_alloca = isinstance(root, tuple) and root[0] == "alloca"
                     out = {}
                     for k, v in facts.items():
                         if isinstance(k, tuple) and k[0] == "M":
                             kr = vf.root_of(k[1])
-                            if isinstance(kr, tuple) and kr[0] == "alloca" and isinstance(root, tuple) and root[0] == "alloca" and kr[1] != root[1]:
-                                out[k] = v
-                            elif isinstance(kr, tuple) and kr[0] == "alloca" and not (isinstance(root, tuple) and root[0] == "alloca") and kr[1] not in self._escaped:
-                                out[k] = v
+                            k_alloca = isinstance(kr, tuple) and kr[0] == "alloca"
+                            if r_alloca:
+                                # writes a local object: only facts about that object die
+                                if not (k_alloca and kr[1] == root[1]):
+                                    out[k] = v
+                            else:
+                                if (k_alloca and kr[1] not in self._escaped) or hooks.pinned(k[1]):
+                                    out[k] = v
                             continue
                         out[k] = v
                     facts = out
